@@ -369,6 +369,9 @@ impl Config {
         self.sync_port = args.sync_port;
         self.leader_address = args.leader_address.clone();
         self.instance_name = args.instance_name.clone();
+        if self.follower || self.leader {
+            self.use_persistence = true;
+        }
     }
 
     pub fn persistence_interval(&self) -> Interval {
